@@ -189,6 +189,13 @@ def ty_productions(prog, t, pos, out):
         for a in t[1]:
             ty_productions(prog, a, "cbarg", out)
         ty_productions(prog, t[2], "cbret", out)
+    elif k == "tr":
+        out[pos + ":trait"] += 1
+        for _, mm, margs, mret in t[2]:
+            out["trait:" + ("&mut self" if mm else "&self")] += 1
+            for a in margs:
+                ty_productions(prog, a, "trarg", out)
+            ty_productions(prog, mret, "trret", out)
     else:
         out[pos + ":" + k] += 1
 
@@ -229,7 +236,8 @@ REQUIRED_C = ["param:prim:u8", "param:prim:i64", "param:prim:f32", "param:prim:f
               "param:write", "ret:unit", "ret:enum", "ret:struct", "ret:outstruct", "ret:Box<opaque>", "ret:Option<Box<opaque>",
               "ret:&opaque", "ret:Option<prim>", "ret:DiplomatOption<prim>", "ret:result", "ret:ok:unit", "ret:err:unit", "ret:ordering",
               "ret:&str:utf8:static", "ret:&slice", "arm:ok", "arm:err", "arm:some", "arm:none", "destroy", "self:struct:val",
-              "self:enum:val", "self:opaque:mut", "field:DiplomatOption<prim>", "field:struct"]
+              "self:enum:val", "self:opaque:mut", "field:DiplomatOption<prim>", "field:struct",
+              "param:trait", "trait:&mut self", "trarg:struct", "trarg:Option<prim>", "trret:Option<prim>", "cbarg:Option<prim>", "cbret:Option<prim>"]
 
 
 def quota_gaps(prods, required):
@@ -298,14 +306,14 @@ def c03_leg(chk, tier, seed):
             r = run_cpp_program(seed + 7500, i - nprog, "c03cpp", profile=prof, ncalls=45, stds=("c++17",))
             r["lang"] = "cpp"
             return r
-        r = run_c_program(seed + 7000, i, "c03", profile=prof, ncalls=45, valgrind=(i < (60 if thorough else 4)), keep=False)
+        r = run_c_program(seed + 7000, i, "c03", profile=(dict(prof, traits=True, trait_prob=0.3) if i % 2 == 0 else prof), ncalls=45, valgrind=(i < (60 if thorough else 4)), keep=False)
         r["lang"] = "c"
         return r
     results = pmap(one, range(nprog + ncpp))
     # the same kind of histories driven from Rust as a foreign caller would, interpreted by Miri: the macro's own glue under
     # Stacked Borrows / validity / leak checking (no C compiler's view of the types involved)
     nmiri = 400 if thorough else 40
-    mres = run_miri_programs(seed + 7900, nmiri, "c03", profile=prof, ncalls=(40 if thorough else 25),
+    mres = run_miri_programs(seed + 7900, nmiri, "c03", profile=dict(prof, traits=True, trait_prob=0.3), ncalls=(40 if thorough else 25),
                              flags_for=lambda i: ["", "-Zmiri-symbolic-alignment-check", "-Zmiri-strict-provenance", "-Zmiri-tree-borrows"][i % 4])
     results += mres
     stats = {"programs": 0, "programs_cpp": 0, "programs_miri": 0, "calls": 0, "objects_tracked": 0, "callbacks_released": 0, "skipped": 0}
@@ -313,6 +321,9 @@ def c03_leg(chk, tier, seed):
     for r in results:
         if r["status"] == "skip":
             stats["skipped"] += 1
+            # a program that never reached its driver (bridge does not compile, tool refuses it, driver emitter lacks a shape) observed
+            # nothing: say so per program instead of letting the leg shrink silently
+            chk.inconc("api %s p%d skipped at %s: %s" % (r.get("lang"), r["idx"], r.get("stage"), (r.get("detail") or "")[-200:].replace("\n", " ")))
             continue
         if r["status"] == "inconclusive":
             chk.inconc("api p%d: %s" % (r["idx"], r.get("detail")))
@@ -344,7 +355,7 @@ import emit_cpp
 CXXFLAGS = ["-g", "-O0", "-fsanitize=address,undefined", "-fno-sanitize-recover=all", "-fno-omit-frame-pointer"]
 
 
-CPP_PROFILE = dict()     # slices of strings are part of the workload since F16 was repaired
+CPP_PROFILE = dict(cb_opt=False, cb_slices=False)      # F39: fn_traits cannot convert Option / primitive-slice callback types (C09 probes it)
 
 
 def run_cpp_program(seed, idx, tag, profile=None, ncalls=40, stds=("c++17", "c++20"), keep=False):
